@@ -47,6 +47,7 @@ def plan(tier, seed):
     for i in range(6 if tier == "quick" else 40):
         shards.append({"kind": "random", "item": {"kind": "gen", "seed": seed * 100003 + i, "opts": {"services": False}},
                        "seed": seed * 977 + 100 + i, "n": n // 2})
+    shards.append({"kind": "w0"})
     return shards
 
 
@@ -366,6 +367,10 @@ def random_history(b, mi, rng, g: Gen):
 
 
 def run_shard(shard) -> Result:
+    if shard.get("kind") == "w0":
+        from ..w0 import run_w0
+
+        return run_w0(PROP, CONTRACTS)
     res = Result()
     item = shard.get("item", {"kind": "matrix"})
     try:
@@ -418,6 +423,10 @@ def run_shard(shard) -> Result:
 
 
 def replay(w):
+    if w.get("kind") == "w0":
+        from ..w0 import run_w0
+
+        return run_w0(PROP, CONTRACTS).violations
     res = Result()
     b = corpus.build_item(w["item"])
     try:
